@@ -174,26 +174,41 @@ def main():
                                                            'replay': 'echo "%s" | harness/bin/cellrun' % l})
 
     # ---------------- InitialiseStates
-    il = init_lines(rng, models, 2 if quick else 20, n_het=6 if quick else 60)
+    il = init_lines(rng, models, 2 if quick else 20, n_het=10 if quick else 80)
     ires = run_cases([l for _, l in il])
+    # the faithful model (extracted Wrapper/Run.v initialise_states: matrix sized from cell 0, cell i gets
+    # set i mod nSets) on the same parameter matrix, for every case of the custom-init models
+    mlines, midx = [], []
+    for k, ((kind, l), (_, r, raw)) in enumerate(zip(il, ires)):
+        if r is not None and flav.get(r['model']) == 'custom' and r['extra'].get('set_rows_hex') is not None:
+            f = l.split()
+            mlines.append(initmodel_line(r, int(f[2]), int(f[3])))
+            midx.append(k)
+    mout = dict(zip(midx, run_model(mlines))) if mlines else {}
     n_het_fail = 0
-    for (kind, l), (_, r, raw) in zip(il, ires):
-        c.count(l, nontrivial=(kind == 'het'))
+    n_init_model = 0
+    for k, ((kind, l), (_, r, raw)) in enumerate(zip(il, ires)):
+        c.count(l, nontrivial=(kind != 'hom'))
         if r is None:
             c.violation('init_crash.json', {'kind': 'crash-in-InitialiseStates', 'case_line': l, 'impl': raw})
             continue
-        lens = r['extra'].get('state_lengths') or []
-        n = len(lens)
-        # the Coq model (Run.init_rows) predicts a panic exactly when some row runs past the matrix sized from cell 0
-        predicted_panic = any(i * lens[0] + lens[i] > n * lens[0] for i in range(n)) if n else False
-        if ('panic' in r['extra']) != predicted_panic:
-            c.corr_broken.append({'kind': 'initialise_states panic: model != code', 'case_line': l, 'lengths': lens,
-                                  'model_predicts_panic': predicted_panic, 'code_panicked': 'panic' in r['extra']})
+        agrees, how = True, 'zero-initialised flavour'
+        if k in mout:
+            n_init_model += 1
+            agrees, how = init_model_agrees(r, mout[k])
+        if not agrees:
+            # implementation != faithful model: a violation wherever it happens, also inside the region
+            # of the known finding (the key only covers what the MODEL of the finding does)
+            c.violation('init_model_%s.json' % r['model'], {'kind': 'InitialiseStates differs from the faithful model (matrix sized from cell 0, cell i <- parameter set i mod nSets)',
+                                                            'how': how, 'case_line': l, 'state_lengths_per_cell': r['extra'].get('state_lengths'),
+                                                            'code_fails': r['fails'], 'replay': 'echo "%s" | harness/bin/cellrun' % l})
+            continue
         if r['ok']:
-            if not r['extra'].get('all_same_length') and n > 1:
+            if not r['extra'].get('all_same_length') and len(r['extra'].get('state_lengths') or []) > 1:
                 c.corr_broken.append({'kind': 'initialise_states: unequal lengths but rows agree?', 'case_line': l})
             continue
         if kind == 'het' and not r['extra'].get('all_same_length'):
+            # rows differ from the single-cell initial states exactly as the faithful model of the finding predicts
             n_het_fail += 1
             c.violation('init_%s.json' % r['model'], {'kind': 'initialise-states-row-differs', 'fails': r['fails'], 'case_line': l},
                         key=KEY_INIT)
@@ -204,12 +219,12 @@ def main():
                      '(plus a many-cells stream N in %s on %d cheap models, footprints recorded up to N=%d) every case (N <= 300) re-run with inputs / states / outputs / parameters handed over as VIEWS of larger sentinel-filled tables (two adjacent offset blocks run one after the other, strided rows with a spare column, time window, stepped time axis, parameter sub-matrix; Go- and C-backed): same results, parents untouched outside the views; plus PARAMSEQ: one long-lived model object gets parameters applied repeatedly (same / different number of sets, other dimension values, each cell alone with its column) and edited in place (with and without re-applying), every Run bit-identical to a fresh object given the current parameters; plus parameter-position streams (tables with a repeated breakpoint and inputs / states exactly on table points for the dimensioned models; every scalar parameter at exactly its range ends, exactly 0, its default, inside; a low-frequency out-of-range stream x100 / negated with nSets, nIn in {1,N}; mostly shared parameter sets / input blocks) x exact / padded outputs (canaries) x padded state columns x Go-/C-backed arrays; per case: vectorised run vs N '
                      'single-cell runs (two parameter packings) bit-for-bit, inputs/parameters bit-identical AND array descriptors (Shape, NDims, Len per axis of inputs, parameters, states, outputs) identical after every vectorised, single-cell and recorded Run; in every third case (and all many-cells cases) Run is called again on the same input/parameter objects (and with a second model instance) and must reproduce the first call bit for bit; recorded per-goroutine access '
                      'sets vs extracted Coq footprint; non-trivial = more than one cell; plus InitialiseStates(n) vs single-cell '
-                     'InitialiseStates(1) (homogeneous: must agree; heterogeneous GR4J/Lag: known finding)' % (len(SHAPES), MANY_N if quick else MANY_N + [511, 1000], len(MANY_MODELS), 129 if quick else 257))
+                     'InitialiseStates(1) (homogeneous / same state length: must agree; GR4J and Lag: every case compared bit for bit with the extracted model of InitialiseStates, nSets in {1,n,2,3} incl. non-divisors; heterogeneous lengths that behave exactly like the model: known finding)' % (len(SHAPES), MANY_N if quick else MANY_N + [511, 1000], len(MANY_MODELS), 129 if quick else 257))
     c.finish(extra_cov={'models': len(models), 'case_classes_hit': len(classes), 'recorded_footprint_cases': n_rec,
                         'c_backed_cases': n_c, 'many_cells_cases': len(many), 'cases_also_run_on_views_of_larger_tables': n_views, 'view_variants': view_variants,
                         'values_placed_exactly_on_table_points': n_on_table, 'long_lived_model_initseq_cases': len(seq_lines), 'long_lived_model_paramseq_cases': len(pseq_lines), 'paramseq_runs_compared_with_fresh_objects': pseq_steps, 'parameter_position_cases': len(special), 'skipped_kernel_rejects_draw': n_skipped, 'skipped_out_of_range_case_over_deadline': n_timeout,
                         'parameter_positions_drawn': positions_summary(pos_table), 'cases_with_repeated_run_on_same_objects': n_second, 'largest_cell_count': max_n,
-                        'max_cells_handled_by_one_goroutine': max_cpg, 'heterogeneous_init_failures': n_het_fail, 'exhaustive': False, 'coqchk': chk},
+                        'max_cells_handled_by_one_goroutine': max_cpg, 'heterogeneous_init_failures': n_het_fail, 'init_cases_compared_with_extracted_model': n_init_model, 'exhaustive': False, 'coqchk': chk},
              assumptions=['array library addresses the row-major offsets its arguments denote (C01/C02; the recorder measures element addresses through the public API and validates every logged value)',
                           'kernels touch only the views they are handed (checked per run by the recorder for the explored inputs)',
                           'custom-state kernels (GR4J, Lag) return a packed state no longer than the state row (same side condition as the known finding)',
